@@ -61,13 +61,12 @@ func skipWide(total int) {
 	vrt.Assert("well-formed => exact length", vrt.Implies(ok, vrt.And(err == nil, got == rn)))
 }
 
-// H18_SkipWide: 20 000-byte buffer; every 1..3-byte length prefix.
-func H18_SkipWide() { skipWide(20000) }
+// H18_SkipWide: a buffer past the whole 3-byte prefix range (2^21 + 64
+// bytes): every length a 1..3-byte prefix can declare fits, and lengths from
+// a 4-byte prefix do not.
+func H18_SkipWide() { skipWide(1<<21 + 64) }
 
-// H18_SkipWide_T: a buffer past the 3-byte prefix range (2^21 + 64 bytes).
-func H18_SkipWide_T() { skipWide(1<<21 + 64) }
-
-var removedLens = []int{127, 128, 129, 255, 256, 257, 300, 383, 384, 511, 512, 640, 16383, 16384}
+var removedLens = []int{127, 128, 129, 255, 256, 257, 300, 383, 384, 511, 512, 640, 16383, 16384, 32767, 32768, 40000, 49152, 65536, 70000}
 
 // H03b_LongRemoved: the removed field (a string, an element of a counted
 // slice, a nested struct) is long enough for its length prefix to take two or
@@ -1358,3 +1357,41 @@ func H03t_TimeExtra() {
 	vrt.Assert("fields around the time", vrt.And(out.A == a, out.B == b))
 	vrt.Assert("the time itself", vrt.And(out.X.Unix() == sec, int64(out.X.Nanosecond()) == ns))
 }
+
+// ------------------------------------------------------------- round 6
+
+// H01b_DeepChain: a type that recurses through a pointer, nested far deeper
+// than the per-type harnesses go (12, 33 and 45 levels), every node
+// carrying the same integer of a 1-, 2-, 5- or 10-byte varint (the nested
+// bodies cross the 128-byte length-prefix step at different depths; concrete
+// values, enumerated): bytes == documented encoding, round trip.
+func H01b_DeepChain() {
+	depth := []int{12, 33, 45}[vrt.Choice("depth", 3)]
+	// node values of 1-, 2-, 5- and 10-byte varints (concrete: with a symbolic
+	// value the nested size terms of 70 levels did not simplify within minutes)
+	v := []int{1, 100, 1 << 30, math.MinInt64}[vrt.Choice("value", 4)]
+	var x V_TRecP
+	cur := &x.V
+	for i := 0; i < depth; i++ {
+		cur.B = v
+		if i+1 < depth {
+			cur.P = new(cat.TRecP)
+			cur = cur.P
+		}
+	}
+	p := newPlenc(cfgDef)
+	data, err := p.Marshal(nil, &x.V)
+	vrt.Assert("marshal ok", err == nil)
+	vrt.Assert("bytes == documented encoding", vrt.BytesEq(data, x.Ref(nil, refOf(cfgDef, 0))))
+	var out cat.TRecP
+	vrt.Assert("unmarshal ok", p.Unmarshal(data, &out) == nil)
+	n, ok := 0, true
+	for c := &out; c != nil; c = c.P {
+		n++
+		ok = vrt.And(ok, c.B == v)
+	}
+	vrt.Assert("round trip", vrt.And(ok, n == depth))
+}
+
+func H02b_DeepChain() { H01b_DeepChain() }
+func H05b_DeepChain() { H01b_DeepChain() }
